@@ -124,6 +124,7 @@ closed spec fn rely_st(&self) -> St { St { ok: self.inv(), ..self.rst() } }
 closed spec fn observes_finish() -> bool { true }
 closed spec fn replace_is_atomic() -> bool { false }
 open spec fn accepts_replace(&self) -> bool { true }
+#[verifier::prophetic] closed spec fn fobs(&self) -> Obs<Self::Error> { obs_now(mut_ref_future(self.d)) }
 ''', '    ')
 o.save()
 
@@ -202,6 +203,7 @@ def contract(lv):
     requires diff_pre(*vstd::prelude::old(d), old, old_range, new, new_range, LVL),
     ensures
         err_post(*vstd::prelude::old(d), *final(d), res),
+        (*final(d)).fobs() == (*vstd::prelude::old(d)).fobs(),
         seg_post(*vstd::prelude::old(d), *final(d), old, old_range, new, new_range, LVL, false, fin::<D>(), res.is_ok()),
 '''.replace('LVL', lv)
 dd = o.find('pub fn diff_deadline<Old, New, D>(')
